@@ -79,6 +79,25 @@ func (m *Model) markUnc(l *MLoc, id string, by map[string]bool) {
 // id whose purge is pending or which is itself uncertain.
 func (m *Model) noteWrite(l *MLoc, it *Item) {
 	u := m.unc(l)
+	if by, ok := u[it.Id]; ok {
+		// The id had gone, in the model, as a dependent of an expired item the
+		// engine has not looked at yet - in the engine its old holder is still
+		// there and is being overwritten now.  What went with the old holder in
+		// the model (its properties, its dependents) will not go in the engine
+		// when the expired item is finally observed, or went already: observing
+		// it settles nothing for them any more.
+		for d, dby := range u {
+			if d == it.Id {
+				continue
+			}
+			for k := range by {
+				if dby[k] {
+					m.markUnc(l, d, map[string]bool{"+" + it.Id: true})
+					break
+				}
+			}
+		}
+	}
 	delete(u, it.Id)
 	delete(m.pend(l), it.Id)
 	xs, _ := it.Body["deleteWith"].([]interface{})
@@ -95,6 +114,14 @@ func (m *Model) noteWrite(l *MLoc, it *Item) {
 		}
 		if by, ok := u[s]; ok && s != it.Id {
 			m.markUnc(l, it.Id, by)
+		}
+	}
+	if by, ok := u[it.Id]; ok {
+		// whatever already depends on this id shares its fate
+		for d := range m.Dependents(l, it.Id) {
+			if d != it.Id {
+				m.markUnc(l, d, by)
+			}
 		}
 	}
 }
